@@ -13,7 +13,11 @@ CONSTANTS
   M_ResetBuf = TRUE
   M_SkipParent = TRUE
   M_ReencodeAfterGiveUp = TRUE
+  M_TopicPerEvent = TRUE
+  Routes = {"none", "a", "b"}
+  RouteKinds = {"regular", "parent"}
+  MaxRouteBatches = 2
   Retry = 1
   DeadQueueModes = {TRUE, FALSE}
-INVARIANTS TypeOK FramingOK BodyIs SplitBodiesInOrder SplitCoversModuloD14 AckOnlyCovered NoDuplicateAccept GiveUpOnlyAfterRetries
+INVARIANTS TypeOK FramingOK BodyIs SplitBodiesInOrder SplitCoversModuloD14 AckOnlyCovered NoDuplicateAccept GiveUpOnlyAfterRetries RoutingOwn
 CHECK_DEADLOCK FALSE
